@@ -607,5 +607,6 @@ def signals_to_torch_feat_dir(args=None):
             ),
         )
         if options.manifest is not None:
-            print(utt_id, file=options.manifest)
+            # make sure an unexpected termination cannot lose the record
+            print(utt_id, file=options.manifest, flush=True)
     return 0
